@@ -17,7 +17,8 @@ MANIFEST = {
             'explicit char / ext_deg is met exactly; min_order <= claimed order unconditionally (final assert: a wrong float '
             'log can only become an error) and the claimed order is the actual field order; lifting happens iff t != 0 and '
             'm >= q; under the ceil-log law the lifted field has q^e > m with e >= 2; every SecFld / _pfield field has order > m '
-            'when t != 0; setup refuses 2t >= m and its default threshold (m-1)//2 is valid and maximal; out-conversion lands '
+            'when t != 0; an int value of a lifted type is the constant (v mod q) of the extension field, inside the embedded '
+            'base field, with output conversion v mod q; setup refuses 2t >= m and its default threshold (m-1)//2 is valid and maximal; out-conversion lands '
             'in [0,q). Model and real mpc.SecFld are compared on every run over argument cross products (inconsistent '
             'combinations are expected to be refused); setup/lifting/_pfield over all (m,t), m <= 9, in subprocesses. The '
             'earlier finding F-C39-1 (degree of a polynomial modulus never compared with ext_deg/order) is repaired by repo '
@@ -301,6 +302,21 @@ for q in [2, 3, 4, 5, 7, 8, 9, 11, 13, 16, 25, 127]:
             except BaseException as e:
                 d['out_nonbase'] = cls(e)
             d['arr_sub'] = bool(S.array.sectype.subfield) if hasattr(S, 'array') else None
+            consts = []
+            for v in range(-q - 1, 2 * q + 2):
+                a = S(v).share                      # public constant: the field element itself
+                val = a.value.value
+                cs = [(val >> i) & 1 for i in range(val.bit_length())] if isinstance(val, int) else [int(c) for c in val]
+                try:
+                    b = S._output_conversion(a)
+                    o = [type(b) is S.subfield, int(b.value)]
+                except BaseException as e:
+                    o = cls(e)
+                same = (S(S.subfield(v)).share == a) and type(a) is F
+                consts.append([v, cs, o, bool(same)])
+            d['consts'] = consts
+        elif F.ext_deg == 1:
+            d['consts_plain'] = all(type(S(v).share) is F and int(S(v).share.value) == v % q for v in range(-q - 1, 2 * q + 2))
         flds[str(q)] = d
     except BaseException as e:
         flds[str(q)] = {'error': cls(e)}
@@ -553,6 +569,7 @@ def run(ctx):
             q = int(qs)
             p, deg = my_fpp(q)
             cl = real_clog(m + 1, q)
+            pend = None
             lift_exprs.append('lift_tbl [(%s, %s, %s)] %s %s %s %s' % (zlit(m + 1), zlit(q), optz(cl), zlit(tv), zlit(m), zlit(q), zlit(deg)))
             if 'error' in d:
                 got = ('Err', 'EAssert') if d['error'] == 'AssertionError' else ('Err', d['error'])
@@ -570,11 +587,32 @@ def run(ctx):
                         ctx.violation('secfld-lift-wrong-field m=%d t=%d q=%d' % (m, tv, q), {'config': desc, 'q': q, 'got': d})
                     if not (d.get('out_ok') and d.get('out_nonbase') == 'AssertionError'):
                         ctx.violation('secfld-out-conversion m=%d t=%d q=%d' % (m, tv, q), {'config': desc, 'q': q, 'got': d})
+                    # values of the lifted type are elements of the embedded base field GF(q), also for ints outside range(q)
+                    vs = []
+                    for (v, cs, o, same) in d.get('consts', []):
+                        vq = v % q
+                        vs.append(v)
+                        if cs != ([] if vq == 0 else [vq]) or o != [True, vq] or not same:
+                            ctx.violation('secfld-lifted-constant-not-in-base-field m=%d t=%d q=%d' % (m, tv, q),
+                                          {'config': desc, 'q': q, 'v': v, 'coefficients': cs, 'out_conversion': o,
+                                           'same_as_subfield_element': same, 'want': vq})
+                    if not vs:
+                        ctx.broken.append({'kind': 'subprocess', 'what': 'no lifted constants recorded', 'case': dict(desc, q=q)})
+                    else:
+                        pend = ('map (fun v => (lift_int %s v, out_conv %s (lift_int %s v))) %s' % (zlit(q), zlit(q), zlit(q), zlist(vs)),
+                                ('consts', dict(desc, q=q, what='lifted constants'),
+                                 [(cs, ('Ok', o[1]) if isinstance(o, list) else ('Err', o)) for (v, cs, o, same) in d['consts']]))
+                        ctx.extra['lifted_constants_checked'] = ctx.extra.get('lifted_constants_checked', 0) + len(vs)
                     if d['order'] // q > m:      # minimality of e (not part of the property): note only
                         ctx.extra['lift_degree_not_minimal'] = ctx.extra.get('lift_degree_not_minimal', 0) + 1
                 elif not (d['order'] == q and d['deg'] == deg):
                     ctx.violation('secfld-wrong-field m=%d t=%d q=%d' % (m, tv, q), {'config': desc, 'q': q, 'got': d})
+                elif d.get('consts_plain') is False:
+                    ctx.violation('secfld-constant-wrong m=%d t=%d q=%d' % (m, tv, q), {'config': desc, 'q': q, 'got': d})
             lift_meta.append(('lift', dict(desc, q=q), got))
+            if pend:                                   # (kept after the 'lift' entry: expressions and meta stay aligned)
+                lift_exprs.append(pend[0])
+                lift_meta.append(pend[1])
             ctx.case(dict(desc, q=q), nontrivial=(tv > 0), kind='SecFld(q) ' + ('refused' if 'error' in d else 'lifted' if d['sub'] else 'plain'))
         for name, d in r['nums'].items():
             if 'error' in d:
@@ -647,6 +685,8 @@ def run(ctx):
                     mv = ('Ok', (v[1][0], v[1][1], v[1][0] ** v[1][1])) if v[0] == 'Ok' else ('Err', v[1])
                 elif what == 'lift':
                     mv = ('Ok', (v[1][0], v[1][1])) if v[0] == 'Ok' else ('Err', v[1])
+                elif what == 'consts':
+                    mv = [(a, ('Ok', b[1]) if b[0] == 'Ok' else ('Err', b[1])) for (a, b) in v]
                 else:
                     mv = ('Ok', v[1]) if v[0] == 'Ok' else ('Err', v[1])
                 if mv != got:
